@@ -764,6 +764,7 @@ def _resolve_consts_l(FA, t):
 # ---------------------------------------------------------------- R-HINT
 
 POPCALLS = ('count_ones', 'n_ones', 'n_zeros', 'count_zeros')
+INT_TYPES = ('usize', 'u64', 'u128', 'u32', 'u16', 'u8', 'i64', 'i32', 'isize')
 
 
 def _roots(F, operand, depth=0, seen=None):
@@ -828,6 +829,14 @@ def _derives_from_popcall(F, operand, depth=0, seen=None):
                 return True
             if fn and any(_pop_fn(F.facts, g['path']) for g in F.facts.resolve(fn)):
                 return True
+            # `words.iter().map(|w| w.count_ones()).sum()`: the popcount sits in a closure handed to the adaptor chain
+            for a in d[2]['args']:
+                tm = F.operand_term(a)
+                for x in subterms(tm):
+                    if isinstance(x, tuple) and x[:1] == ('agg',) and isinstance(x[1], str) and x[1].startswith('closure:') and _pop_fn(F.facts, x[1][len('closure:'):]):
+                        return True
+                if isinstance(a, dict) and 'p' in a and _derives_from_popcall(F, a, depth + 1, seen):
+                    return True
         else:
             st = F.blocks[d[0]]['s'][d[3]]
             if 'ret_of' in st and _pop_fn(F.facts, st['ret_of']):
@@ -918,6 +927,9 @@ def rule_HINT(FA):
                 if is_fresh(r):
                     fresh.append(F.names.get(r))
             key = 'R-HINT|%s::new|%s' % (base, '+'.join(sorted(F.names.get(r, '?') for r in roots)))
+            if not fresh and any(F.locals[r] not in INT_TYPES for r in roots):
+                out.append(Inst('R-HINT', key, 'note', t.get('line', ''), 'the tested counter lives in a struct (`%s`): freshness not decided' % ', '.join(sorted(F.names.get(r, '?') for r in roots)), props, nontrivial=False))
+                continue
             if fresh:
                 out.append(Inst('R-HINT', key, 'ok', t.get('line', ''), 'hint test reads `%s`, updated from the current line\'s popcount before the test' % ', '.join(sorted(set(fresh))), props,
                                 sample={'numerator_variables': sorted(F.names.get(r, '?') for r in roots), 'fresh': sorted(set(fresh))}))
